@@ -940,15 +940,14 @@ func depthTable(tier string) []depthCase {
 	ladder := []int{100, 1000, 10000, 100000}
 	for _, c := range constructs {
 		for _, d := range ladder {
-			rung := d
 			if c.cap > 0 && d > c.cap {
 				d = c.cap
 			}
 			if c.name == "unindent-run" && d > 2000 {
 				d = 2000 // quadratic file size
 			}
-			if tier != "thorough" && c.flat && c.name != "binop-chain" && rung != 100000 {
-				continue // quick: the added chains get the rung at their cap only (plus the long rung above)
+			if tier != "thorough" && c.flat && c.name != "binop-chain" {
+				continue // quick: the added chains get the long rung above only; binop-chain keeps the whole ladder
 			}
 			if tier != "thorough" && d > 10000 && !c.recursive() {
 				d = 10000 // iterative constructs: the deep rungs are left to the thorough tier
